@@ -141,7 +141,7 @@ def storage_snapshot(w, addr):
     return tuple(w.ch.storage(addr, s) for s in range(14))
 
 
-def dynamic_check(ctx, prog, src, cfg, ext_code, rule, where, lib=None):
+def dynamic_check(ctx, prog, src, cfg, ext_code, rule, where, lib=None, light=False):
     """Execute an accepted program: view/pure externals under CALL vs STATICCALL (same result, no storage change);
     pure externals under perturbed storage / balance / block context.  Returns (#calls, #failing)."""
     code = compile_full(src, cfg, lib)
@@ -150,7 +150,7 @@ def dynamic_check(ctx, prog, src, cfg, ext_code, rule, where, lib=None):
         kind = "codegen" if isinstance(code, VyperException) else "codegen-internal"
         return 0, 0, f"{kind}:{type(code).__name__}"
     worlds = []
-    for (num, ts, sx, sy, bal) in ((1, 1000, 11, 22, 10**18), (77, 5000, 5, 9, 12345)):
+    for (num, ts, sx, sy, bal) in ((1, 1000, 11, 22, 10**18), (77, 5000, 5, 9, 12345))[: 1 if light else 2]:
         w = World(cfg, num, ts)
         if w.deploy_ext(ext_code) is None:
             return 0, 0, "ext-deploy-failed"
@@ -218,6 +218,41 @@ def dynamic_check(ctx, prog, src, cfg, ext_code, rule, where, lib=None):
                                "worlds": "block (1,1000) storage (11,22) balance 0  vs  block (77,5000) storage (5,9) balance 12345"},
                               key=f"c11:pure:{rule}")
     return ncalls, nfail, None
+
+
+_EXT_CACHE = {}
+
+
+def ext_code_for(evm):
+    if evm not in _EXT_CACHE:
+        _EXT_CACHE[evm] = compile_full(G.EXT_SRC, Config(False, "gas", evm))
+    return _EXT_CACHE[evm]
+
+
+def staticcall_sweep(ctx, accepted, cfgs_of, tgt_lit):
+    """Bytecode-level oracle under EVERY configuration: each external @view/@pure function of every accepted program is
+    called under CALL and under STATICCALL (a state-modifying opcode halts under STATICCALL) and must give the same
+    result and leave storage untouched.  Pre-cancun targets get the same program with `t0` as plain storage."""
+    ncalls = nfail = 0
+    skipped = {}
+    used = set()
+    for k, (prog, rule, where) in enumerate(accepted):
+        src, lib = G.v_prog(prog, tgt_lit)
+        for cfg in cfgs_of(k):
+            s2 = src if cfg.evm in ("cancun", "prague") else src.replace("t0: transient(uint256)", "t0: uint256")
+            ext = ext_code_for(cfg.evm)
+            if isinstance(ext, Exception):
+                skipped["ext:" + cfg.evm] = skipped.get("ext:" + cfg.evm, 0) + 1
+                continue
+            n, f, note = dynamic_check(ctx, prog, s2, cfg, ext, rule, where, lib, light=True)
+            ncalls += n
+            nfail += f
+            used.add(cfg.name)
+            if note:  # compile failure under this configuration: C02/C20 matter, not an accepted program here
+                key = note.split(":")[-1]
+                skipped[key] = skipped.get(key, 0) + 1
+    ctx.corr["staticcall_sweep"] = {"programs": len(accepted), "configurations": len(used), "calls": ncalls, "skipped_compiles": skipped}
+    return ncalls, nfail
 
 
 def configs_all(ctx):
@@ -370,6 +405,7 @@ def run(ctx):
     ncalls = 0
     nfail = 0
     mism = []
+    accepted_progs = []
     for (rule, where, prog), vm in zip(cases, verdict_model):
         src, lib = G.v_prog(prog, tgt_lit)
         full_src = src if lib is None else src + "\n# ---- lib1.vy ----\n" + lib
@@ -429,6 +465,7 @@ def run(ctx):
             continue
         if acc and vm:
             stats["agree_accept"] += 1
+            accepted_progs.append((prog, rule, where))
         elif not acc and not vm:
             stats["agree_reject"] += 1
         elif acc and not vm:
@@ -461,6 +498,18 @@ def run(ctx):
     ctx.corr["dynamic_calls"] = ncalls
     ctx.corr["evaluations"] = len(cases) + ncalls
     ctx.corr["distinct_nontrivial"] = len({G.c_prog(c[2]) for c in cases})
+    from vlib.configs import configs as _cfgs
+    qc = _cfgs("quick")
+    if ctx.tier == "thorough":
+        tc = _cfgs("thorough")
+        rr = ctx.rng("sweep")
+        cfgs_of = lambda k: qc + rr.sample(tc, 10)  # noqa
+    else:
+        cfgs_of = lambda k: qc  # noqa
+    ns, fs = staticcall_sweep(ctx, accepted_progs, cfgs_of, tgt_lit)
+    ncalls += ns
+    nfail += fs
+    ctx.corr["evaluations"] += ns
     nx, fx = fixed_cases(ctx, dyn_cfgs)
     ctx.corr["fixed_case_compiles"] = nx
     ctx.corr["evaluations"] += nx
